@@ -339,7 +339,9 @@ class C05(fw.Prop):
             # the document written holds the operation's encoding (parent 0), and the loaded HUGR writes the same document
             doc = json.loads(txt)
             in_doc = e["sops"].OpType.model_validate({**doc["nodes"][1], "parent": 7})
-            same_doc = (O.walk_sop(in_doc) == O.walk_sop(s) and json.loads(txt2) == doc
+            # (documents compared with their `edges` arrays -- here only those of documents embedded in function
+            # constants, the module has no edges -- as multisets: no order of that array is promised)
+            same_doc = (O.walk_sop(in_doc) == O.walk_sop(s) and O.sort_edge_lists(json.loads(txt2)) == O.sort_edge_lists(doc)
                         and back[kids[0]].metadata == {"k": [1, None], "n": None} and kids[0].idx == node.idx)
             o.update(raised=None, ser=O.walk_sop(s), deser=O.lit_op_obj(d, tab), reser=O.walk_sop(d._to_serial(Node(7))),
                      f2=O.facts_lit(d), k2=O.kinds_lit(d), json_ok=bool(same_doc), tab=tab.lit())
@@ -361,7 +363,7 @@ class C05(fw.Prop):
             d = s.root.deserialize()
             return {"s": O.walk_sop(s), "deser": O.lit_op_obj(d, tab), "reser": O.walk_sop(d._to_serial(Node(s.root.parent)))}
         if k == "doc":
-            return O.observe_doc(case["j"])
+            return O.observe_doc(case["j"], ctx)
         raise AssertionError(k)
 
     def literal(self, case, o, ctx):
